@@ -728,3 +728,15 @@ pub fn root() -> String {
 pub fn rss_bytes() -> usize {
     std::fs::read_to_string("/proc/self/statm").ok().and_then(|s| s.split_whitespace().nth(1).and_then(|x| x.parse::<usize>().ok())).map(|pages| pages * 4096).unwrap_or(0)
 }
+
+extern "C" {
+    fn malloc_trim(pad: usize) -> i32;
+}
+
+/// Returns freed heap pages to the operating system (glibc keeps them otherwise, and the RSS caps of
+/// the explicit-state searches would then see the memory of a search that is already over).
+pub fn trim_memory() {
+    unsafe {
+        malloc_trim(0);
+    }
+}
